@@ -58,6 +58,22 @@ type table struct {
 
 var errBackend = errors.New("storage unavailable")
 
+// staleEUI: what the device-key records carry in their redundant DevEUI field: zero for half of the
+// devices, the EUI of a decoy device (which has its own AS-KEK label and KEK in every table) for the rest
+func staleEUI(e lorawan.EUI64) lorawan.EUI64 {
+	if e[7]&1 == 0 {
+		return lorawan.EUI64{}
+	}
+	return decoyEUI(e)
+}
+
+func decoyEUI(e [8]byte) (d [8]byte) {
+	d = e
+	d[0] ^= 0xa5
+	d[7] ^= 0xfe // keeps bit 0
+	return d
+}
+
 func (t *table) handler() http.Handler {
 	if t.nilKEK && len(t.keks) != 0 || t.nilASLabel && len(t.aslabels) != 0 || t.nilHome && len(t.home) != 0 {
 		panic("harness: a nil configuration function cannot have table entries")
@@ -86,7 +102,10 @@ func (t *table) config() joinserver.HandlerConfig {
 				if d.eui == e {
 					switch d.kind {
 					case found:
-						return joinserver.DeviceKeys{DevEUI: e, NwkKey: d.nwk, AppKey: d.app, JoinNonce: d.joinNonce}, nil
+						// DeviceKeys.DevEUI is redundant (the callback was asked for e): an integrator need not fill it, or may
+						// hand out a stale record.  Zero or another device's EUI, never e: a handler that passes this field
+						// on to another callback instead of the request's DevEUI shows.
+						return joinserver.DeviceKeys{DevEUI: staleEUI(e), NwkKey: d.nwk, AppKey: d.app, JoinNonce: d.joinNonce}, nil
 					case notFound:
 						return joinserver.DeviceKeys{}, joinserver.ErrDevEUINotFound
 					default:
